@@ -14,12 +14,14 @@ SIM_CH = ['c1', 'c2']
 FAMILY = {
     'C02': {'mver_step', 'mver_bump', 'empty_no_bump', 'untouchedD', 'untouchedS', 'untouchedC', 'untouchedRest',
             'monotoneD', 'monotoneS', 'monotoneC', 'bumpD', 'bumpS', 'bumpC', 'ref', 'ref_whole_mdib', 'init'},
+    # (untouched*: what a refused call named is not part of the footprint of the commit - "if the API rejects a call ...
+    # exactly what they were before")
     'C03': {'begin_noop', 'atomic_abort', 'atomic_commit_failed', 'isolated_in_tx', 'isolated_copy',
-            'published_unchanged'},
+            'published_unchanged', 'untouchedD', 'untouchedS', 'untouchedC'},
     'C11': {'lookups_agree'},
 }
 
-MC_ACTIONS = ['Begin', 'AbortBy', 'Commit', 'SGet', 'SetSTok', 'SUnget', 'SWriteEntityAs', 'CGet', 'CMk', 'SetCTok',
+MC_ACTIONS = ['Begin', 'AbortBy', 'Commit', 'SGet', 'SetSTok', 'SUnget', 'SWriteEntityAs', 'SWriteEntities', 'CGet', 'CMk', 'SetCTok',
               'CDisAll', 'CEntUpdate', 'CEntNew', 'CEntDelete', 'DGet', 'SetDTok', 'DAdd', 'DRemove', 'DGetState', 'DWriteEntityAs', 'DNewEntity', 'MutateCopy',
               'KeepEntity', 'DWriteEntityCtx']
 
